@@ -48,3 +48,22 @@ pub fn now(args: &[&str]) -> String {
         _ => "BADCASE".into(),
     }
 }
+
+/// TICK <r1> <r2> .. -> OK <dtn_time_now()> READS <n> FIRST <r1> LAST <last reading taken> | PANIC
+/// (ticking clock hook: every clock read of this thread takes the next reading, the last one repeats)
+pub fn tick(args: &[&str]) -> String {
+    let rs: Option<Vec<u64>> = args.iter().map(|t| get_u64(t)).collect();
+    match rs {
+        Some(rs) if !rs.is_empty() => {
+            bp7::verif_hooks::set_thread_clock_script(Some(rs.clone()));
+            let r = std::panic::catch_unwind(bp7::dtn_time_now);
+            let n = bp7::verif_hooks::thread_clock_reads();
+            bp7::verif_hooks::set_thread_clock_script(None);
+            match r {
+                Ok(v) => format!("OK {} READS {} FIRST {} LAST {}", v, n, rs[0], rs[n.max(1).min(rs.len()) - 1]),
+                Err(_) => "PANIC".into(),
+            }
+        }
+        _ => "BADCASE".into(),
+    }
+}
